@@ -132,23 +132,19 @@ Hypothesis Hs : (s < n)%nat.
 Definition bdinv (d : vec (option nat)) : Prop :=
   forall v k, (v < n)%nat -> d v = Some k -> (k = 0%nat /\ v = s) \/ hasw n C k s v.
 
-Lemma bdinv_upd d u0 v : bdinv d -> (u0 < n)%nat -> (v < n)%nat -> C u0 v <> 0%Z ->
-  bdinv (vupd d v (option_map S (d u0))).
+Lemma bdinv_upd d v du1 : bdinv d -> (forall k, du1 = Some k -> hasw n C k s v) -> bdinv (vupd d v du1).
 Proof.
-  intros HI Hu Hv He w k Hw. unfold vupd. destruct (Nat.eqb_spec w v) as [->|Hne]; [|apply HI; exact Hw].
-  destruct (d u0) as [du|] eqn:Eu; [|discriminate]. cbn [option_map]. intros H. injection H as <-.
-  right. assert (E1 : hasw n C 1 u0 v).
-  { exists []. split; [reflexivity|]. split; [apply below_nil|exact He]. }
-  destruct (HI u0 du Hu Eu) as [[-> ->]|W]; [exact E1|].
-  replace (S du) with (du + 1)%nat by lia. apply (hasw_cat n C du 1 s u0 v Hu W E1).
+  intros HI Hd w k Hw. unfold vupd. destruct (Nat.eqb_spec w v) as [->|Hne]; [|apply HI; exact Hw].
+  intros H. right. apply Hd. exact H.
 Qed.
 
 Definition bsinv (st : bstate) : Prop := bdinv (bdist st) /\ Forall (fun v => (v < n)%nat) (que st).
 
-Lemma bvisit_inv u0 st v : bsinv st -> (u0 < n)%nat -> (v < n)%nat -> C u0 v <> 0%Z -> bsinv (bvisit u0 st v).
+Lemma bvisit_inv du1 st v : bsinv st -> (v < n)%nat -> (forall k, du1 = Some k -> hasw n C k s v) ->
+  bsinv (bvisit du1 st v).
 Proof.
-  intros [HD HQ] Hu Hv He. unfold bvisit.
-  set (d1 := if is0 (bdist st v) then vupd (bdist st) v (option_map S (bdist st u0)) else bdist st).
+  intros [HD HQ] Hv Hd. unfold bvisit.
+  set (d1 := if is0 (bdist st v) then vupd (bdist st) v du1 else bdist st).
   assert (H1 : bdinv d1) by (unfold d1; destruct (is0 (bdist st v)); [apply bdinv_upd; assumption|exact HD]).
   destruct (Nat.eqb (color st v) 0); split; cbn [bdist que].
   - apply bdinv_upd; assumption.
@@ -157,11 +153,11 @@ Proof.
   - exact HQ.
 Qed.
 
-Lemma bvisit_fold u0 ns : forall st, bsinv st -> (u0 < n)%nat ->
-  Forall (fun v => (v < n)%nat /\ C u0 v <> 0%Z) ns -> bsinv (fold_left (bvisit u0) ns st).
+Lemma bvisit_fold du1 ns : forall st, bsinv st ->
+  Forall (fun v => (v < n)%nat /\ forall k, du1 = Some k -> hasw n C k s v) ns -> bsinv (fold_left (bvisit du1) ns st).
 Proof.
-  induction ns as [|v r IH]; intros st HI Hu Hns; cbn [fold_left]; [exact HI|].
-  inversion Hns as [|? ? [Hv He] Hr]; subst. apply IH; [apply bvisit_inv; assumption|exact Hu|exact Hr].
+  induction ns as [|v r IH]; intros st HI Hns; cbn [fold_left]; [exact HI|].
+  inversion Hns as [|? ? [Hv Hd] Hr]; subst. apply IH; [apply bvisit_inv; assumption|exact Hr].
 Qed.
 
 Lemma nbrs_spec u0 : Forall (fun v => (v < n)%nat /\ C u0 v <> 0%Z) (nbrs n C u0).
@@ -175,9 +171,17 @@ Proof.
   induction fuel as [|f IH]; intros st R HI Hrun; [discriminate|].
   cbn [breadth_loop] in Hrun. destruct (que st) as [|u0 rest] eqn:Eq; [injection Hrun as <-; exact HI|].
   assert (Hu : (u0 < n)%nat) by (destruct HI as [_ HQ]; rewrite Eq in HQ; inversion HQ; assumption).
-  pose proof (bvisit_fold u0 (nbrs n C u0) st HI Hu (nbrs_spec u0)) as [H1 H2].
+  cbv zeta in Hrun.
+  assert (Hns : Forall (fun v => (v < n)%nat /\ forall k, option_map S (bdist st u0) = Some k -> hasw n C k s v)
+                       (nbrs n C u0)).
+  { eapply Forall_impl; [|apply nbrs_spec]. cbn beta. intros v [Hv He]. split; [exact Hv|]. intros k Hk.
+    destruct (bdist st u0) as [du|] eqn:Eu; [|discriminate]. cbn [option_map] in Hk. injection Hk as <-.
+    assert (E1 : hasw n C 1 u0 v) by (exists []; split; [reflexivity|]; split; [apply below_nil|exact He]).
+    destruct HI as [HD _]. destruct (HD u0 du Hu Eu) as [[-> ->]|W]; [exact E1|].
+    replace (S du) with (du + 1)%nat by lia. apply (hasw_cat n C du 1 s u0 v Hu W E1). }
+  pose proof (bvisit_fold _ (nbrs n C u0) st HI Hns) as [H1 H2].
   refine (IH _ R _ Hrun). split; cbn [bdist que]; [exact H1|].
-  destruct (que (fold_left (bvisit u0) (nbrs n C u0) st)); [constructor|]. inversion H2; assumption.
+  destruct (que (fold_left (bvisit (option_map S (bdist st u0))) (nbrs n C u0) st)); [constructor|]. inversion H2; assumption.
 Qed.
 
 Lemma breadth_inv d : breadth n C s = Some d -> bdinv d.
@@ -195,12 +199,10 @@ End BFS.
 
 Definition breadthdist_full_statement : Prop :=
   forall n C R D, breadthdist n C = Some (R, D) ->
-    (forall i, (i < n)%nat -> C i i = 0%Z) ->
     dist_correct n (Lbin C) (fun i j => olen_of_nat (D i j)).
 
 (* soundness half: a finite distance d is the edge count of a real walk (d >= 1).
-   missing: minimality and completeness — and the full statement is false with self-connections
-   (breadthdist_selfloop_refuted below), which is why it carries the zero-diagonal hypothesis *)
+   missing: minimality and completeness (queue-order argument), tested only *)
 Theorem breadthdist_partial n C R D : breadthdist n C = Some (R, D) ->
   forall i j d, (i < n)%nat -> (j < n)%nat -> D i j = Some d -> (1 <= d)%nat /\ hasw n C d i j.
 Proof.
@@ -221,21 +223,6 @@ Proof.
   unfold breadthdist. destruct (all_some (map (breadth n C) (seq 0 n))) as [rows|]; [|discriminate].
   intros H. injection H as <- <-. intros i j. cbv beta zeta.
   destruct (let x := nth i rows (fun _ => None) j in if is0 x then None else x); cbn [isfin]; split; congruence.
-Qed.
-
-(* the quirk at distance.py:94-95 with a self-connection at the source: neighbours after the source get 2 *)
-Example breadthdist_selfloop_refuted :
-  exists n C R D, breadthdist n C = Some (R, D) /\
-    ~ dist_correct n (Lbin C) (fun i j => olen_of_nat (D i j)).
-Proof.
-  exists 2%nat, (of_rows 0%Z [[1; 1]; [0; 0]]%Z).
-  destruct (breadthdist 2 (of_rows 0%Z [[1; 1]; [0; 0]]%Z)) as [[R D]|] eqn:E; [|vm_compute in E; discriminate].
-  exists R, D. split; [reflexivity|]. intros Hc.
-  specialize (Hc 0%nat 1%nat ltac:(lia) ltac:(lia) ltac:(lia)).
-  assert (HD : D 0%nat 1%nat = Some 2%nat).
-  { vm_compute in E. injection E as _ <-. reflexivity. }
-  cbv beta in Hc. rewrite HD in Hc. cbn [olen_of_nat is_min_dist] in Hc. destruct Hc as [_ Hmin].
-  specialize (Hmin [] 1 (below_nil 2) eq_refl). vm_compute in Hmin. apply Hmin. reflexivity.
 Qed.
 
 (* ====================== reachdist: the flag ====================== *)
